@@ -5,10 +5,12 @@ import (
 	"context"
 	"fmt"
 	"math/big"
+	"net/http"
 	"sync"
 	"time"
 
 	"github.com/iden3/go-merkletree-sql/v2"
+	"github.com/iden3/go-schema-processor/v2/loaders"
 	"github.com/iden3/go-schema-processor/v2/merklize"
 )
 
@@ -162,7 +164,7 @@ func emitMix(out *Out, r *Rng, goroutines, rounds int) {
 			}
 		}(gi)
 	}
-	wg.Wait()
+	waitOrHang(&wg, 60*time.Second, func() { fail("hang: the goroutines of the mix did not finish within 60 s") })
 	close(stop)
 	impl := J{}
 	org := J{}
@@ -186,6 +188,76 @@ func emitMix(out *Out, r *Rng, goroutines, rounds int) {
 		Tags: []string{fmt.Sprintf("goroutines:%d", goroutines), "cache:" + cfg.cacheMode, "ctxpolicy:" + ctxLoader.policy}, NT: true})
 }
 
+// waitOrHang waits for the group; when it does not finish in time the mix is reported as hanging (the goroutines stay behind)
+func waitOrHang(wg *sync.WaitGroup, d time.Duration, onHang func()) {
+	done := make(chan struct{})
+	go func() { wg.Wait(); close(done) }()
+	select {
+	case <-done:
+	case <-time.After(d):
+		onHang()
+	}
+}
+
+// slowOrigin answers like the scripted origin, a little later: loads overlap
+type slowOrigin struct {
+	inner http.RoundTripper
+	delay time.Duration
+}
+
+func (s slowOrigin) RoundTrip(req *http.Request) (*http.Response, error) {
+	time.Sleep(s.delay)
+	return s.inner.RoundTrip(req)
+}
+
+// a burst: many goroutines at once load documents that take more than one request each (pages with an alternate link,
+// ipfs URLs through a gateway) through one shared loader with a cold or never-filled cache
+func emitBurst(out *Out, r *Rng, goroutines int) {
+	o := &scriptedOrigin{docs: map[string]*orgEntry{}}
+	gw := "https://gw.example"
+	doc, page, page2 := "https://ctx.example/doc.jsonld", "https://ctx.example/burst-page", "https://ctx.example/burst-page2"
+	o.docs[doc] = &orgEntry{ver: 7, policy: "no-store"}
+	o.docs[page] = &orgEntry{alt: doc, policy: "no-store"}
+	o.docs[page2] = &orgEntry{alt: page, policy: "max-age=0"}
+	o.docs[gw+"/ipfs/QmBurst/a.json"] = &orgEntry{ver: 8, policy: "no-store"}
+	o.docs[gw+"/ipfs/QmBurst/b.json"] = &orgEntry{ver: 9, policy: "max-age=3600"}
+	loader := loaders.NewDocumentLoader(nil, gw, loaders.WithHTTPClient(&http.Client{Transport: slowOrigin{o, time.Duration(1+r.Intn(3)) * time.Millisecond}}))
+	urls := []string{page, page2, "ipfs://QmBurst/a.json", "ipfs://QmBurst/b.json", doc}
+	want := map[string]int{page: 7, page2: 7, "ipfs://QmBurst/a.json": 8, "ipfs://QmBurst/b.json": 9, doc: 7}
+	var mu sync.Mutex
+	var why []string
+	okN := 0
+	var wg sync.WaitGroup
+	for gi := 0; gi < goroutines; gi++ {
+		wg.Add(1)
+		u := urls[(gi+r.Intn(2))%len(urls)]
+		go func(u string) {
+			defer wg.Done()
+			for k := 0; k < 3; k++ {
+				d, err := loader.LoadDocument(u)
+				got := -1
+				if err == nil {
+					got = docVersion(d)
+				}
+				mu.Lock()
+				if got != want[u] && len(why) < 4 {
+					why = append(why, fmt.Sprintf("burst of %d goroutines: load of %s gives %d (%v), sequentially %d", goroutines, u, got, err, want[u]))
+				}
+				okN++
+				mu.Unlock()
+			}
+		}(u)
+	}
+	waitOrHang(&wg, 30*time.Second, func() {
+		mu.Lock()
+		why = append(why, fmt.Sprintf("hang: a burst of %d goroutines loading through one shared loader did not finish within 30 s (%d of %d loads returned)", goroutines, okN, 3*goroutines))
+		mu.Unlock()
+	})
+	mu.Lock()
+	defer mu.Unlock()
+	out.Emit(Case{Op: "none", In: J{"burst": goroutines}, Impl: J{"returned": okN}, Prop: propOf(append([]string{}, why...)), Tags: []string{"burst", fmt.Sprintf("goroutines:%d", goroutines)}, NT: true})
+}
+
 func proofSig(p *merkletree.Proof) string {
 	if p == nil {
 		return "nil"
@@ -203,6 +275,9 @@ func genC20(out *Out, r *Rng, tier string, n int, shard int) {
 	for i := 0; i < n; i++ {
 		gs := []int{2, 4, 8, 16, 32, 64}[r.Intn(6)]
 		emitMix(out, r, gs, 6+r.Intn(20))
+		if i == 0 {
+			emitBurst(out, r, []int{24, 48, 96}[r.Intn(3)])
+		}
 	}
 }
 
